@@ -14,7 +14,7 @@ UNIT_ALIASES = {"identifier_ic": ("identifier", ["--cfg", 'feature="ignore_case"
 MATRIX_FNS = ["matrix", "lemma_cell_sem", "lemma_cmp_rekey", "lemma_cell_missing", "lemma_row_eval", "lemma_row_cells", "lemma_conj_true", "lemma_row_sem", "lemma_rows_eval", "lemma_matrix_defined", "lemma_matrix_sem", "lemma_or_true", "lemma_cell_wf", "lemma_row_wf", "lemma_matrix_wf", "lemma_row_srcs", "lemma_matrix_truth", "lemma_or_arm", "lemma_or_arm_ident", "lemma_or_arm_head", "lemma_or_plain", "lemma_and_arm", "lemma_be_arm", "lemma_negate_arm", "lemma_nested_arm", "lemma_nested_truth", "lemma_nested_exact", "lemma_nested_array_truth", "lemma_nested_array_exact", "lemma_or_free_head", "lemma_match_single", "lemma_match_group", "lemma_post_refl", "lemma_mx_empty", "lemma_mx_push_row", "lemma_mx_push_rest", "lemma_row_from_lookup", "lemma_row_single"]
 
 REWRITE_FNS = ["rewrite_search", "rewrite", "lemma_rw_refl", "lemma_rw_wf"]
-BATCH_FNS = ["batch", "lemma_ac_member", "lemma_ac_any", "lemma_single_kind", "lemma_exact_empty", "lemma_any_ctx_push", "lemma_any_regex_push", "lemma_any_group_push", "lemma_any_ident_take", "lemma_group_ok_push"]
+BATCH_FNS = ["batch", "seqtail", "lemma_single_quant", "lemma_ac_search", "lemma_ac_member", "lemma_ac_any", "lemma_single_kind", "lemma_exact_empty", "lemma_any_ctx_push", "lemma_any_regex_push", "lemma_any_group_push", "lemma_any_ident_take", "lemma_group_ok_push"]
 
 PROPS = {
     "C15": {
@@ -90,9 +90,10 @@ PROPS = {
         "assumptions": ["serde_yaml::Value::as_mapping and Mapping-as-Document are trusted glue (src/yaml.rs not under contract)", "rule_wf(self): loading establishes well-formedness (C03 link)"],
     },
     "C08": {
-        "units": {"solver": ["solve_expression", "match_all", "match_of", "slow_aho", "lemma_of3_single", "lemma_bit_or", "lemma_bit_val", "lemma_bit_zero", "lemma_seen_step", "lemma_seen_all", "lemma_count_true_step", "lemma_count_true_mono", "lemma_match_unfold"]},
-        "explanation": "all(X)/of(X, n) over identifier groups count the group's entries (solve_expression Match arms: and3 / of3 over sems); over a merged search they count distinct members: slow_aho's 64-bit bitmap is proved to equal ac_count (each member once, however often it occurs), match_all/match_of are proved equal to sem_all_leaf/sem_of_leaf for string, array and cast scalar values; a single predicate counts as a list of one member",
-        "assumptions": ["slow_aho's HashSet branch (>= 64 needles) is a hole", "the parser-side construction of the wrappers (parse_mapping) is not under contract", "Matrix forms of all()/of() are holes"],
+        "units": {"solver": ["solve_expression", "match_all", "match_of", "slow_aho", "lemma_of3_single", "lemma_bit_or", "lemma_bit_val", "lemma_bit_zero", "lemma_seen_step", "lemma_seen_all", "lemma_count_true_step", "lemma_count_true_mono", "lemma_match_unfold"], "batch": BATCH_FNS},
+        "explanation": "all(X)/of(X, n) over identifier groups count the group's entries (solve_expression Match arms: and3 / of3 over sems); over a merged search they count distinct members: slow_aho's 64-bit bitmap is proved to equal ac_count (each member once, however often it occurs), match_all/match_of are proved equal to sem_all_leaf/sem_of_leaf for string, array and cast scalar values; a single predicate counts as a list of one member; parser side: the end of parse_mapping's Sequence arm (slice seqtail) is proved to keep the all()/of() quantifier around the batched group - a single un-merged member may stand for itself only under all(k) and of(k, 1), where lemma_single_quant proves it means the same - and lemma_ac_member proves that a merged automaton hits member p exactly when member p matches on its own, so slow_aho's distinct-member count is the number of matching members as written",
+        "assumptions": ["slow_aho's HashSet branch (>= 64 needles) is a hole", "parse_mapping outside the two slices (Yaml walk, key parsing, classification of members) is not under contract", "Matrix forms of all()/of() are holes",
+                        "known finding C08-KF1: all()/of() over a list batched into more than one search evaluates each search as 'some member matches'"],
     },
     "C16": {
         "units": {"solver": ["solve_expression", "match_all", "match_of", "solve", "Cache::find", "Passthrough::find"], "paths": ["ObjectV::find", "ObjectVS::find"]},
